@@ -51,6 +51,12 @@ def symbolic_programs() -> list[dict]:
     return progs
 
 
+def generated_symbolic(rng: np.random.Generator, n: int) -> list[dict]:
+    """C16's generated programs over symbolic shapes, as kernels."""
+    return [{"id": "symgen/" + p["id"], "build": "c16gen", "gen": p}
+            for p in c16.generated(rng, n)]
+
+
 def _directed() -> dict[str, Any]:
     def roll_sym(pt: Any) -> dict:
         n = pt.make_size_param("n")
@@ -103,7 +109,34 @@ def _directed() -> dict[str, Any]:
         x = pt.make_placeholder("x", (n, 3), np.float64)
         t = (x * 2).tagged(ImplStored())
         return {"a": pt.sum(t, axis=1) + pt.amax(t, axis=1), "b": pt.roll(t, 1, 0)}
+    def pad_sym(pt: Any) -> dict:
+        n = pt.make_size_param("n")
+        m = pt.make_size_param("m")
+        x = pt.make_placeholder("x", (n,), np.float64)
+        y = pt.make_placeholder("y", (n, m), np.float64)
+        z = pt.make_placeholder("z", (n, 3), np.float64)
+        return {"a": pt.pad(x, (1, 3)), "b": pt.pad(x, (0, 1)), "c": pt.pad(x, (3, 1)),
+                "d": pt.pad(y, ((0, 2), (1, 1))), "e": pt.pad(z, ((2, 0), (0, 2))),
+                "f": pt.pad(x, 2), "g": pt.pad(y, ((1, 0), (0, 3)))}
+
+    def join_sym(pt: Any) -> dict:
+        n = pt.make_size_param("n")
+        x = pt.make_placeholder("x", (n, 2), np.float64)
+        y = pt.make_placeholder("y", (n, 3), np.float64)
+        return {"a": pt.concatenate([x, y, x], axis=1), "b": pt.stack([x, x * 2, x], axis=0),
+                "c": pt.stack([x, x], axis=2), "d": pt.expand_dims(y, 1) + 1,
+                "e": pt.transpose(y, (1, 0)) * 2, "f": pt.sum(y, axis=1),
+                "g": pt.concatenate([y, y + 1], axis=1)[:, ::-2]}
+
+    def repeated_operand(pt: Any) -> dict:
+        # one array at two positions of a join (what a table keyed by the operand confuses)
+        a = pt.make_placeholder("a", (3,), np.float64)
+        b = pt.make_placeholder("b", (5,), np.float64)
+        return {"a": pt.concatenate([a, b, a]), "b": pt.concatenate([2 * a, b, 2 * a]),
+                "c": pt.concatenate([b, a, a, b]), "d": pt.stack([a, a + 1, a]),
+                "e": pt.concatenate([a[:2], b, a[:2]])}
     return {"roll_sym": roll_sym, "pad_static": pad_static, "concat_static": concat_static,
+            "pad_sym": pad_sym, "join_sym": join_sym, "repeated_operand": repeated_operand,
             "reshape_static": reshape_static, "slices_sym": slices_sym,
             "einsum_sym": einsum_sym, "bcast_sym": bcast_sym, "adv_index": adv_index,
             "stored_sym": stored_sym}
@@ -121,8 +154,9 @@ def model_of(prog: dict) -> dict:
     try:
         if "build" in prog:
             name = prog["build"]
-            if name.startswith("c16:"):
-                t = next(t for t in c16.templates() if t["name"] == name[4:])
+            if name.startswith("c16:") or name == "c16gen":
+                t = c16.template_of_program(prog["gen"]) if name == "c16gen" else \
+                    next(t for t in c16.templates() if t["name"] == name[4:])
                 params = {p: pt.make_size_param(p) for p in t["params"]}
 
                 def dim_pt(d: Any) -> Any:
@@ -176,6 +210,7 @@ def main(tier: str, only: list[dict] | None = None) -> int:
         progs = only
     else:
         progs = symbolic_programs()
+        progs += generated_symbolic(rng, 40 if tier == "quick" else 400)
         # boundary cases of basic indexing / roll / concatenate as KERNELS (the
         # clamping rules of negative steps and out-of-range starts decide
         # whether the generated subscript stays inside the array)
